@@ -3,8 +3,13 @@ package c02
 
 import (
 	"bytes"
+	"encoding/hex"
+	"encoding/json"
 	"errors"
 	"fmt"
+	"os"
+	"path/filepath"
+	"runtime"
 	"strings"
 	"testing"
 
@@ -33,6 +38,34 @@ func TestMain(m *testing.M) {
 	h.Main(m)
 }
 
+// wrapVectors: pinned derivation steps on P-256 in which the modular addition wraps around n without a
+// carry out of 256 bits (probability 2^-32 per step; /verif/data/slip10/wrap_p256.json).
+type wrapVector struct {
+	seed []byte
+	path []uint32
+}
+
+var wrapVectors = func() []wrapVector {
+	_, file, _, _ := runtime.Caller(0)
+	b, err := os.ReadFile(filepath.Join(filepath.Dir(file), "..", "..", "data", "slip10", "wrap_p256.json"))
+	if err != nil {
+		return nil
+	}
+	var raw []struct {
+		Seed string   `json:"seed"`
+		Path []uint32 `json:"path"`
+	}
+	if json.Unmarshal(b, &raw) != nil {
+		return nil
+	}
+	var out []wrapVector
+	for _, r := range raw {
+		s, _ := hex.DecodeString(r.Seed)
+		out = append(out, wrapVector{s, r.Path})
+	}
+	return out
+}()
+
 type deriveCase struct {
 	Curve string   `json:"curve"` // secp256k1, nist256p1, ed25519, toyW50, toyW90, toyS50, toyS90
 	Seed  h.B      `json:"seed"`
@@ -52,6 +85,8 @@ func masks(name string) byte {
 		return 0x01 // half of all candidates invalid
 	case "toyW90", "toyS90":
 		return 0x0e // 7/8 invalid
+	case "toyS98":
+		return 0x3f // 63/64 invalid: retry chains of more than 64 steps are common
 	}
 	return 0
 }
@@ -69,7 +104,7 @@ func curves(c deriveCase) (slip10.Curve, ref.Curve, *counter) {
 	case "toyW50", "toyW90":
 		return &toyW{wrap: c.Wrap, mask: masks(c.Curve), cnt: cnt, fault: fault{c.FailNew, c.FailShift}, nShift: new(int)},
 			&ref.Weier{C: secp.P256, Key: "toyW seed", Mask: masks(c.Curve)}, cnt
-	case "toyS50", "toyS90":
+	case "toyS50", "toyS90", "toyS98":
 		return &toyS{wrap: c.Wrap, mask: masks(c.Curve), cnt: cnt, fault: fault{c.FailNew, c.FailShift}, nShift: new(int)},
 			&ref.Ed{Mask: masks(c.Curve), Toy: true}, cnt
 	}
@@ -248,12 +283,23 @@ func checkDerive(c deriveCase) (info h.Info, err error) {
 		info = h.Info{Class: "retry/master" + wrapped(c), NT: true}
 	case toy && totalRetries > 0:
 		info = h.Info{Class: "retry/child" + wrapped(c), NT: true}
+	case isWrapCase(c):
+		info = h.Info{Class: "nist256p1/sum-wraps-n-without-carry", NT: true}
 	case public:
 		info = h.Info{Class: c.Curve + "/public-derivation", NT: true}
 	case len(c.Path) > 0:
 		info = h.Info{Class: c.Curve + "/path", NT: true}
 	}
 	return info, nil
+}
+
+func isWrapCase(c deriveCase) bool {
+	for _, w := range wrapVectors {
+		if c.Curve == "nist256p1" && bytes.Equal(c.Seed, w.seed) && len(c.Path) >= len(w.path) && c.Path[0] == w.path[0] && c.Path[1] == w.path[1] {
+			return true
+		}
+	}
+	return false
 }
 
 func wrapped(c deriveCase) string {
@@ -296,7 +342,23 @@ func genIndex(t *rapid.T, hardenedOnly bool) uint32 {
 }
 
 func genDerive(t *rapid.T) deriveCase {
-	curve := []string{"secp256k1", "nist256p1", "ed25519", "toyW50", "toyW90", "toyS50", "toyS90"}[h.Pick(t, "curve", 3, 3, 3, 3, 2, 2, 2)]
+	if h.Pick(t, "wrapvec", 24, 1) == 1 && len(wrapVectors) > 0 {
+		// pinned P-256 steps whose sum I_L + k_par lies in [n, 2^256) (found by cmd/findwrap), continued by
+		// a few more steps: every hardened descendant depends on the exact child scalar
+		w := wrapVectors[rapid.IntRange(0, len(wrapVectors)-1).Draw(t, "wv")]
+		c := deriveCase{Curve: "nist256p1", Seed: w.seed, Path: append([]uint32{}, w.path...), PubFrom: -1}
+		for i, n := 0, rapid.IntRange(0, 2).Draw(t, "wext"); i < n; i++ {
+			c.Path = append(c.Path, genIndex(t, false))
+		}
+		if rapid.Bool().Draw(t, "wpub") {
+			c.PubFrom = len(w.path)
+			for i := c.PubFrom; i < len(c.Path); i++ {
+				c.Path[i] &^= 1 << 31
+			}
+		}
+		return c
+	}
+	curve := []string{"secp256k1", "nist256p1", "ed25519", "toyW50", "toyW90", "toyS50", "toyS90", "toyS98"}[h.Pick(t, "curve", 3, 3, 3, 3, 2, 2, 2, 1)]
 	var seed h.B
 	switch h.Pick(t, "sk", 5, 2, 3, 1) {
 	case 0:
@@ -347,9 +409,9 @@ func TestDerive(t *testing.T) {
 		Prop: "C02", Name: "derive", N: 2400,
 		Gen: genDerive, Check: checkDerive,
 		Require: []string{"secp256k1/path", "nist256p1/path", "ed25519/path", "secp256k1/public-derivation", "nist256p1/public-derivation",
-			"retry/master", "retry/child", "retry/master+child", "retry/master/wrapped-invalid-key", "retry/child/wrapped-invalid-key", "undefined/hardened-from-public", "undefined/ed25519-non-hardened",
+			"retry/master", "retry/child", "retry/master+child", "retry/master/wrapped-invalid-key", "retry/child/wrapped-invalid-key", "nist256p1/sum-wraps-n-without-carry", "undefined/hardened-from-public", "undefined/ed25519-non-hardened",
 			"undefined/ed25519-non-hardened-public", "permanent-error/master", "permanent-error/child"},
-		Rule: "seeds of length 0..256 (weighted to > 64 and > 128 bytes) x {secp256k1, P-256, ed25519, toy curves with 50% / 87.5% invalid candidates (Weierstrass-like and string-key-like)} x paths of 0..6 hardened/non-hardened indices, optionally switching to the extended public key at a drawn step, the toy curves report invalid candidates either with the bare ErrInvalidKey or with an error wrapping it; optionally a permanent (non-ErrInvalidKey) curve error injected at a drawn call; at every prefix private key, chain code, serialized public key and fingerprint = own SLIP-0010 model with the same validity predicate; path API = step-wise; undefined derivations fail; permanent errors returned after exactly the expected number of curve calls (call budget 2000 instead of a timeout); non-trivial = path length >= 1 on a real curve, >= 1 retry on a toy curve, undefined derivation, or injected fault; distinct by case",
+		Rule: "seeds of length 0..256 (weighted to > 64 and > 128 bytes) x {secp256k1, P-256, ed25519, toy curves with 50% / 87.5% / 98.4% invalid candidates (Weierstrass-like and string-key-like; their keys implement the optional HardenedOnly method and answer false), pinned P-256 steps whose sum I_L + k_par lies in [n, 2^256) (2^32 search, cmd/findwrap)} x paths of 0..6 hardened/non-hardened indices, optionally switching to the extended public key at a drawn step, the toy curves report invalid candidates either with the bare ErrInvalidKey or with an error wrapping it; optionally a permanent (non-ErrInvalidKey) curve error injected at a drawn call; at every prefix private key, chain code, serialized public key and fingerprint = own SLIP-0010 model with the same validity predicate; path API = step-wise; undefined derivations fail; permanent errors returned after exactly the expected number of curve calls (call budget 2000 instead of a timeout); non-trivial = path length >= 1 on a real curve, >= 1 retry on a toy curve, undefined derivation, or injected fault; distinct by case",
 	})
 }
 
